@@ -182,6 +182,9 @@ func (s *wireSim) netAddr(withTime bool) *wire.NetAddress {
 		ip = net.IP(h[:16])
 	} else {
 		ip = net.IPv4(byte(t.Draw(256, "ip")), byte(t.Draw(256, "ip")), byte(t.Draw(256, "ip")), byte(t.Draw(256, "ip")))
+		if t.Chance(1, 2, "ipv4-4-byte-form") {
+			ip = ip.To4() // the 4-byte form, as the IP of a *net.TCPAddr of a real IPv4 socket
+		}
 	}
 	na := &wire.NetAddress{Services: wire.ServiceFlag(t.U32("svc")), IP: ip, Port: uint16(t.Draw(65536, "port"))}
 	if withTime {
@@ -498,7 +501,7 @@ func (s *wireSim) faultCheck(m wire.Message, valid []byte, pver uint32, bsvnet w
 	cmd := m.Command()
 	frame := append([]byte{}, valid...)
 	mustReject := ""
-	kind := []string{"truncate", "bitflip", "length-inflate", "count-inflate", "splice", "wrong-magic", "bad-checksum", "unknown-command", "oversize-length", "random-bytes", "read-error", "noncanonical-varint", "ignored-payload-command"}[t.Pick([]int{14, 14, 8, 14, 6, 6, 6, 6, 6, 8, 6, 4, 4}, "fault-kind")]
+	kind := []string{"truncate", "bitflip", "length-inflate", "count-inflate", "splice", "wrong-magic", "bad-checksum", "unknown-command", "oversize-length", "random-bytes", "read-error", "noncanonical-varint", "ignored-payload-command", "command-padding"}[t.Pick([]int{14, 14, 8, 14, 6, 6, 6, 6, 6, 8, 6, 4, 4, 8}, "fault-kind")]
 	errAt := -1
 	switch kind {
 	case "truncate":
@@ -549,6 +552,19 @@ func (s *wireSim) faultCheck(m wire.Message, valid []byte, pver uint32, bsvnet w
 				frame = append(frame[:cut], b.Bytes()[min(cut, b.Len()):]...)
 			}
 		}
+	case "command-padding":
+		// the command field is a name followed by zero padding; anything after the first NUL makes it another,
+		// unknown, command
+		nameLen := len(cmd)
+		if nameLen >= 11 {
+			kind = "bad-checksum"
+			frame[20] ^= 0xff
+			mustReject = "bad checksum"
+			break
+		}
+		pos := 4 + nameLen + 1 + t.Draw(12-nameLen-1, "pad-pos")
+		frame[pos] = byte(1 + t.Draw(255, "pad-byte"))
+		mustReject = "non-zero bytes in the padding of the command field (unknown command)"
 	case "wrong-magic":
 		binary.LittleEndian.PutUint32(frame[0:4], []uint32{uint32(wire.TestNet), uint32(wire.TestNet3), 0, 0xffffffff, uint32(wire.MainNet) ^ 1}[t.Draw(5, "magic")])
 		mustReject = "wrong network magic"
